@@ -800,7 +800,7 @@ func main() {
 		Assumptions: []string{"sequentially consistent interleavings at synchronisation granularity; races on the value stack are decided exactly by vector clocks over the hooked stack accesses (funcGen.stackStorage.set/get, Stack.ToSlice)",
 			"virtual time: only the host function slow() costs time (300us); time.After fires only when nothing else is enabled; no closure call takes 5s of real time",
 			"runtime.NumCPU is the harness' worker count W; W=1 (the library's own sequential fallback) defines the sequential reference for map/accept; merge and multiUse references are computed from separately forced operands"},
-		QuickBudget: 70e9, ThoroughBudget: 28 * 60e9,
+		QuickBudget: 70e9, ThoroughBudget: 45 * 60e9,
 		Workers: 2, CoopWorkers: 10, RaceWorkers: 4,
 		Run:              run,
 		Replay:           replay,
